@@ -450,6 +450,27 @@ pub fn run(session: &Session) -> i32 {
             cases.push(json!({"kind": "repl", "files": {}, "inputs": inputs}));
         }
     }
+    // values whose declared types are unions: what a later input computes from them does not depend on
+    // whether the input sees the declaration or the value (empty iterators behind a union of iterator
+    // types, equal values behind overlapping unions)
+    for inputs in [
+        vec!["g := () -> () -> (bool, int) | () -> (bool, float) { return []~; };", "it := g();", "s := it $+;", "(s, 1)"],
+        vec!["g := () -> () -> (bool, int) | () -> (bool, float) { return []~; };", "it := g();", "s := it $*;", "(s, 1)"],
+        vec!["g := (k: int) -> () -> (bool, int) | () -> (bool, string) { if k > 0 { return [1]~; } return []~; };", "it := g(0);", "s := it $+;", "jt := g(1);", "(s, jt $+)"],
+        vec!["f := () -> int|string { return 1; };", "g := () -> int|float { return 1; };", "a := f();", "b := g();", "(a == b, a != b, b == a)"],
+        vec!["f := () -> int|string { return 1; };", "g := () -> int|float { return 1; };", "a := f(); b := g();", "m := match a { (b) => 1, => 0, };", "(m, [a] == [b])"],
+        vec!["f := () -> [int]|string { return [1]; };", "g := () -> [int]|float { return [1]; };", "a := f();", "b := g();", "(a == b, a != b)"],
+        vec!["f := () -> struct{a: int}|int { return struct{a := 1}; };", "g := () -> struct{a: int}|string { return struct{a := 1}; };", "a := f();", "b := g();", "(a == b, a != b)"],
+    ] {
+        let items: Vec<Json> = inputs
+            .iter()
+            .map(|t| {
+                let names: Vec<String> = t.split(';').filter_map(|st| st.trim().split_once(" := ").map(|(n, _)| n.trim().to_string())).filter(|n| !n.contains('(') && !n.contains(' ')).collect();
+                json!({"declares": names, "text": t})
+            })
+            .collect();
+        cases.push(json!({"kind": "repl", "files": {}, "inputs": items}));
+    }
     // a construct that binds a name locally to a run-time value and uses it, with the same name declared
     // outside as a constant, as a run-time value, as a value of another type or not at all: one statement
     // per input, two per input, and the whole as one input
